@@ -271,6 +271,7 @@ func Main(checks map[string]CheckFunc) {
 	c.R = Report{Check: name, Tier: c.Tier, Shard: c.Shard, Shards: c.Shards,
 		Counters: map[string]int64{}, ViolationKeys: map[string]int64{}, Bounds: map[string]interface{}{},
 		Outcomes: map[string]int64{}}
+	debug.SetMaxStack(128 << 20) // an unbounded recursion should die in a second, not after filling 1 GB
 	c.start = time.Now()
 	if pf := os.Getenv("VERIF_PROF"); pf != "" {
 		if fh, err := os.Create(pf); err == nil {
